@@ -39,7 +39,7 @@ Lower(s) == IF s \in DOMAIN F.lower THEN F.lower[s] ELSE s
 \*   ws     trimmed value contains SP, TAB or LF
 \*   data   trimmed value starts with "data:"
 \*   perr   url.Parse fails (after the base64 CR/LF clean-up for data URIs)
-\*   scheme u.Scheme           norm  u.String()        empty  u.String() = ""
+\*   scheme u.Scheme           norm  u.String(), white space around it trimmed       empty  norm = ""
 Url(v) == F.url[v]
 
 \* link hardening treats the href as external: url.Parse(v) finds a host, or cannot parse v at all
